@@ -24,8 +24,10 @@ def param_names(plan, ctx, em):
 
 
 class Setup(object):
-    def __init__(self, plan, order=None, rename=None, periods=('a', 'b')):
+    def __init__(self, plan, order=None, rename=None, periods=('a', 'b'), order_tag='canonical'):
         self.plan = plan
+        self.order = list(order) if order is not None else None
+        self.order_tag = order_tag
         self.ctx = Z.build(plan, order=order, rename=rename)
         self.em = emit(self.ctx)
         self.ok = bool(self.em.text)
@@ -45,7 +47,7 @@ class Setup(object):
         self.D = Decider(timeout_ms=60000)
 
     def base_rec(self):
-        rec = {'plan': self.plan.name, 'obs': [], 'features': sorted(self.plan.features)}
+        rec = {'plan': self.plan.name, 'obs': [], 'features': sorted(self.plan.features), 'order': self.order, 'order_tag': self.order_tag}
         if not self.ok:
             rec['build_error'] = repr(self.em.err)
         elif self.untranslatable:
@@ -116,7 +118,7 @@ from vf.replaylib import get_plan, check_period
 from vf import zoo as Z
 from vf.emit import emit
 plan = get_plan(%(plan)r)
-ctx = Z.build(plan)
+ctx = Z.build(plan, order=%(order)r)
 em = emit(ctx)
 vals = %(cex)r
 params = {k[:-2]: F(v) for k, v in vals.items() if k.endswith('@*')}
@@ -212,3 +214,19 @@ def compare_systems(pa, pb, params, mapb=None, restrict=None, timeout_ms=60000, 
                     ob['cex'] = {n: str(val_fraction(m.eval(zv, model_completion=True))) for n, zv in VV.items()}
                 obs.append(ob)
     return obs, D
+
+
+ORDER_TAGS = {'quick': [('canonical', 0), ('markets-first', 3)], 'thorough': [('canonical', 0), ('markets-first', 3), ('reverse', 2), ('flows-first', 4)]}
+
+
+def plan_orders(plans, tier):
+    """(plan, order, tag) work items: every topology in its canonical declaration order and in alternative admissible orders."""
+    items = []
+    for p in plans:
+        orders = p.orders('transpositions')
+        seen = []
+        for tag, idx in ORDER_TAGS[tier]:
+            if idx < len(orders) and orders[idx] not in seen:
+                seen.append(orders[idx])
+                items.append((p, orders[idx] if idx else None, tag))
+    return items
